@@ -14,14 +14,16 @@ PROP = 'C11'
 LEVEL = 'exploration'
 RULE = ('generated applications (2-4 services, 6-14 methods with case variants, prefix/suffix/underscore/digit variants, custom operation '
         'names) x all permutations of the service list x 9 naming channels (XML root QName, SOAP 1.1/1.2 body child, JSON/YAML single key, '
-        'MessagePack str and bin key, msgpack-rpc name field, HttpRpc URL segment); names sent: every registered one, and per registered name '
+        'MessagePack str and bin key, msgpack-rpc name field, HttpRpc URL segment) plus the HttpPattern channel (a static or one-placeholder '
+        'route per method, verb-restricted for every other method; near-miss paths); custom names: _operation_name, _in_message_name, and the '
+        'cooperating pair "A published under an in-message name, B published under A\'s python name"; names sent: every registered one, and per registered name '
         'its case flip, one char added/removed front/back, and the name qualified with another namespace; non-trivial = a request that was '
         'dispatched or refused with a decoded fault; distinct by (channel, permutation, name class, outcome).')
 ASSUMPTIONS = [
     'an unqualified XML root (no namespace at all) is recorded, not judged: the statement speaks of "a different namespace"',
     'auxiliary methods are not generated',
 ]
-REQUIRED_COUNTERS = ('registered_calls', 'near_miss_calls', 'functions_entered', 'duplicate_constructions')
+REQUIRED_COUNTERS = ('registered_calls', 'near_miss_calls', 'functions_entered', 'duplicate_constructions', 'pattern_calls')
 CHANNELS = ('xml', 'soap11', 'soap12', 'json', 'yaml', 'msgpack', 'msgpack-bkeys', 'msgpackrpc', 'httprpc-json')
 BASES = ['get', 'put', 'item', 'x', 'list_all', 'a1']
 
@@ -48,29 +50,67 @@ def gen_app_spec(rng):
     services = [[] for _ in range(nserv)]
     for i, n in enumerate(names):
         op = None
-        if rng.random() < .2:
+        r = rng.random()
+        if r < .2:
             op = 'op_' + n
+        elif r < .35:
+            op = 'in:im_' + n          # custom in-message name: that, not the python name, is what a request names
         services[i % nserv].append((n, op))
+    # two cooperating customisations: A is published under an in-message name, and B's operation name is A's python name
+    plain = [(si, mi) for si, ms in enumerate(services) for mi, (n, op) in enumerate(ms) if op is None]
+    if len(plain) >= 2 and rng.random() < .6:
+        (sa, ma), (sb, mb) = rng.sample(plain, 2)
+        a, b = services[sa][ma][0], services[sb][mb][0]
+        services[sa][ma] = (a, 'in:im_' + a)
+        services[sb][mb] = ('py_' + b, a)
     return [s for s in services if s]
 
 
-def build(spec_services, order, kind, calls):
+def public_name(pyname, op):
+    if op and op.startswith('in:'):
+        return op[3:]
+    return op or pyname
+
+
+def pattern_path(si, pyname, placeholder=False):
+    return '/r%d/p_%s%s' % (si, pyname, '/<n>' if placeholder else '')
+
+
+def has_placeholder(si, mi):
+    return (si + mi) % 3 == 0
+
+
+def build(spec_services, order, kind, calls, patterns=False, seen=None):
     """services listed in the given order; every function reports (service idx, python name)"""
     from spyne import Application, Service, rpc, Integer
+    from spyne.protocol.http import HttpPattern
     svcs = []
     for si, methods in enumerate(spec_services):
         d = {}
-        for (pyname, op) in methods:
-            def make(si=si, pyname=pyname):
-                def f(ctx):
-                    calls.append((si, pyname))
-                    return si * 1000 + len(pyname)
+        for mi, (pyname, op) in enumerate(methods):
+            ph = patterns and has_placeholder(si, mi)
+
+            def make(si=si, pyname=pyname, ph=ph):
+                if ph:
+                    def f(ctx, n):
+                        calls.append((si, pyname))
+                        if seen is not None:
+                            seen.append(n)
+                        return si * 1000 + len(pyname)
+                else:
+                    def f(ctx):
+                        calls.append((si, pyname))
+                        return si * 1000 + len(pyname)
                 f.__name__ = str(pyname)
                 return f
             kw = {'_returns': Integer}
-            if op:
+            if op and op.startswith('in:'):
+                kw['_in_message_name'] = op[3:]
+            elif op:
                 kw['_operation_name'] = op
-            d[pyname] = rpc(**kw)(make())
+            if patterns:
+                kw['_patterns'] = [HttpPattern(pattern_path(si, pyname, ph), verb='GET' if mi % 2 else None)]
+            d[pyname] = rpc(*([Integer] if ph else []), **kw)(make())
         svcs.append(type(str('Svc%d' % si), (Service,), d))
     inp, outp = M.make_protocols(kind, None)
     app = Application([svcs[i] for i in order], M.TNS, name='C11App', in_protocol=inp, out_protocol=outp)
@@ -78,6 +118,8 @@ def build(spec_services, order, kind, calls):
 
 
 def request(channel, name, ns=M.TNS):
+    if channel == 'httppattern':
+        return dict(method='GET', path=name, qs='', body=b'', content_type=None)
     kind = channel.replace('-bkeys', '')
     if kind in ('xml', 'soap11', 'soap12'):
         r = M.encode_request(kind, name, [])
@@ -104,7 +146,7 @@ def run_app(R, seed, aid, tier):
     registered = {}
     for si, methods in enumerate(spec):
         for pyname, op in methods:
-            registered[op or pyname] = (si, pyname)
+            registered[public_name(pyname, op)] = (si, pyname)
     perms = list(itertools.permutations(range(nserv)))
     if tier == 'quick' and len(perms) > 6:
         perms = [perms[0], perms[-1]] + rng.sample(perms[1:-1], 4)
@@ -112,6 +154,7 @@ def run_app(R, seed, aid, tier):
     if tier == 'quick':
         channels = rng.sample(channels, 4)
     from spyne.server.wsgi import WsgiApplication
+    run_patterns(R, seed, aid, tier, spec, registered, perms, rng)
     for channel in channels:
         kind = channel.replace('-bkeys', '')
         baseline = {}
@@ -140,8 +183,56 @@ def run_app(R, seed, aid, tier):
     duplicates(R, rng, seed, aid)
 
 
+def run_patterns(R, seed, aid, tier, spec, registered, perms, rng):
+    """naming channel 'HttpPattern': the request path (and verb) of a registered pattern names the method"""
+    from spyne.server.wsgi import WsgiApplication
+    channel = 'httppattern'
+    routes = {}
+    for si, methods in enumerate(spec):
+        for mi, (pyname, op) in enumerate(methods):
+            ph = has_placeholder(si, mi)
+            routes[pattern_path(si, pyname, False) + ('/%d' % (7 + mi) if ph else '')] = ((si, pyname), 7 + mi if ph else None)
+    baseline = {}
+    for pi, order in enumerate(perms):
+        calls, seen = [], []
+        try:
+            app = build(spec, order, 'httprpc-json', calls, patterns=True, seen=seen)
+        except Exception as e:
+            R.violation('application with distinct method names and routes was rejected at construction: %r' % e,
+                        {'seed': seed, 'app': aid, 'channel': channel}, mech='valid_app_rejected:%s' % type(e).__name__)
+            return
+        wsgi = WsgiApplication(app)
+        repro = {'seed': seed, 'app': aid, 'channel': channel, 'order': list(order), 'services': spec}
+        for path, (owner, n) in sorted(routes.items()):
+            del seen[:]
+            one(R, wsgi, calls, channel, path, M.TNS, owner, repro, baseline, pi)
+            R.count('pattern_calls')
+            if n is not None and calls == [owner] and seen != [n]:
+                R.violation('route %s delivered %r for the path placeholder, sent %r' % (path, seen, n), dict(repro, name=path), mech='pattern_placeholder_value')
+        if pi == 0 or tier == 'thorough':
+            for path in sorted(routes):
+                head, _, last = path.rpartition('/')
+                cands = [head + '/' + last.swapcase(), head + '/' + last + 'x', head + '/x' + last, head + '/' + last[:-1],
+                         head.swapcase() + '/' + last, head + 'x/' + last, '/x' + head[1:] + '/' + last]
+                for nm in cands[: 4 if tier == 'quick' else 20]:
+                    if nm in routes or nm.rpartition('/')[2] in registered or not nm.rpartition('/')[2]:
+                        continue
+                    if any(nm.startswith(r.rsplit('/', 1)[0] + '/') and r.rsplit('/', 1)[1].isdigit() and nm.count('/') == r.count('/') for r in routes):
+                        continue        # still matches a '<n>' placeholder route: that is a C03/C05 matter (bad integer), not naming
+                    one(R, wsgi, calls, channel, nm, M.TNS, None, repro, None, pi)
+        # the plain HttpRpc naming (last path segment = public name) still works beside the patterns
+        for name, owner in sorted(registered.items()):
+            si, pyname = owner
+            mi = [m[0] for m in spec[si]].index(pyname)
+            if has_placeholder(si, mi):
+                continue
+            one(R, wsgi, calls, 'httprpc-json', name, M.TNS, owner, repro, None, pi)
+
+
 def one(R, wsgi, calls, channel, name, ns, owner, repro, baseline, pi):
     kind = channel.replace('-bkeys', '')
+    if kind == 'httppattern':
+        kind = 'httprpc-json'
     try:
         req = request(channel, name, ns)
     except Exception as e:
